@@ -1352,7 +1352,8 @@ Definition ostep (o : okern) (e : oev) : okern :=
       if own o fd && is_listening k fd then
         match k_poll_accept k fd with
         | (k1, Ready (child, _)) => mkok k1 (owned o ++ [child]) (acc_log o ++ [child])
-        | (k1, _) => mkok k1 (owned o) (acc_log o)
+        | (k1, Pending) => mkok k1 (owned o) (acc_log o)
+        | (_, Err _) => o                         (* the `expect` panics of poll_accept: not a step *)
         end
       else o
   | OSend fd b => if own o fd then mkok (fst (k_poll_send k fd b)) (owned o) (acc_log o) else o
@@ -1365,7 +1366,8 @@ Definition ostep (o : okern) (e : oev) : okern :=
       | (k1, _) => mkok k1 (owned o) (acc_log o)
       end
   | OUdpSend fd pl dst =>
-      if own o fd && is_dgram k fd then mkok (fst (k_udp_send_to k fd pl dst)) (owned o) (acc_log o) else o
+      if own o fd && is_dgram k fd && negb (has_tcb_b k fd)
+      then mkok (fst (k_udp_send_to k fd pl dst)) (owned o) (acc_log o) else o
   | ODeliver p => mkok (k_deliver k p) (owned o) (acc_log o)
   | OEgress => mkok (fst (k_egress k)) (owned o) (acc_log o)
   end.
